@@ -46,7 +46,7 @@ def prove(run: lib.Run):
 # running the implementation
 # ----------------------------------------------------------------------------------
 
-class _Timeout(Exception):
+class _Timeout(BaseException):     # not an Exception: typelib's union routines swallow those
     pass
 
 
@@ -102,11 +102,14 @@ def run_history(case, on_call):
     live = G.LiveHistory(case)
     impl.clear_caches()
     memo: dict = {}
+    results: list = []
     for idx, step in enumerate(case["history"]):
         if step["op"] == "define":
             live.define(step["ids"])
         elif step["op"] == "annotate":
             live.annotate(step)
+        elif step["op"] == "resolve":
+            resolve_step(live, step, results)
         else:
             snap = live.snapshot(step["root"], f"{case['tag']}@{idx}")
             root = live.obj(step["root"])
@@ -119,10 +122,36 @@ def run_history(case, on_call):
                 nodes = e
             key = G.freeze(step["root"])
             earlier = memo.get(key) if step["fn"] == "static_order" else None
+            if not isinstance(nodes, BaseException):
+                results.append(nodes)
             on_call(live, idx, step, snap, root, nodes, earlier)
             if step["fn"] == "static_order" and key not in memo and not isinstance(nodes, BaseException):
                 memo[key] = nodes
     return live
+
+
+def resolve_step(live, step, results):
+    """What consumers of a graph do with deferred nodes: resolve them.  Never an observation -- failures are ignored."""
+    import typelib
+    from typelib import graph
+    from typelib.py import refs
+    how = step["how"]
+    try:
+        if how in ("evaluate", "static_order-of-ref"):
+            for nodes in list(results):
+                for n in nodes:
+                    for x in (n.type, n.unwrapped):
+                        if x.__class__ is typing.ForwardRef:
+                            try:
+                                with_alarm(20, lambda: refs.evaluate(x) if how == "evaluate" else graph.static_order(x))
+                            except Exception:  # noqa: BLE001
+                                pass
+        elif how == "unmarshal":
+            with_alarm(5, lambda: typelib.unmarshal(live.obj(step["root"]), step["value"]))
+        elif how == "marshal":
+            with_alarm(5, lambda: typelib.marshal(step["value"], t=live.obj(step["root"])))
+    except (_Timeout, RecursionError, Exception):  # noqa: BLE001
+        pass
 
 
 def emit_obs(live: G.Live, nodes) -> tuple[str | None, str]:
@@ -183,6 +212,20 @@ def case_stream(rng: random.Random, tier: str):
         yield G.random_case(rng, depth=rng.choice([1, 2, 3, 3]))
 
 
+def deep_stream(rng: random.Random, tier: str):
+    """Two-level container edges (c09_gen.deep_case): every digraph over 3 classes (quick: one root per digraph in
+    rotation, plain; thorough: every root, plain and inside a container), random ones over 2 and 4 classes."""
+    thorough = tier == "thorough"
+    for mask in range(512):
+        for r in (range(3) if thorough else [mask % 3]):
+            yield G.deep_case(3, mask, rng, r, "plain")
+            if thorough:
+                yield G.deep_case(3, mask, rng, r, rng.choice(G.ROOT_KINDS[1:]))
+    for i in range(3000 if thorough else 250):
+        n = rng.choice([2, 3, 4, 4])
+        yield G.deep_case(n, rng.randrange(1 << (n * n)), rng, rng.randrange(n), rng.choice(G.ROOT_KINDS))
+
+
 def history_stream(rng: random.Random, tier: str):
     """Operation histories over graph.static_order in which the class environment changes between calls:
     late definition of a referenced class (every digraph over 2 classes x both definition orders x priming by
@@ -208,6 +251,15 @@ def history_stream(rng: random.Random, tier: str):
         yield G.history_annotate_case(rng, rng.choice([1, 2, 2, 3]))
     for i in range(500 if thorough else 40):
         yield G.history_random_case(rng, rng.choice([2, 3, 3, 4]))
+    # round 4: deferred nodes are RESOLVED between the calls (nothing in the environment changes)
+    for i in range(900 if thorough else 70):
+        yield G.history_resolve_case(rng, rng.choice([1, 2, 2, 3]))
+    for i in range(300 if thorough else 30):
+        n = rng.choice([2, 3, 3, 4])
+        order = list(range(n))
+        rng.shuffle(order)
+        yield G.history_late_case(n, rng.randrange(1 << (n * n)), tuple(order), rng.randrange(1, n),
+                                  rng.choice(G.ROOT_KINDS), rng, resolve=True, flavours=[rng.choice(["namedtuple", "dataclass"]) for _ in range(n)])
 
 
 def corpus_cases():
@@ -256,9 +308,14 @@ HDR = ("From Coq Require Import List String.\nImport ListNotations.\n"
 
 def correspond(run: lib.Run):
     rng = random.Random(run.seed)
-    cases = corpus_cases() + list(case_stream(rng, run.tier)) + list(history_stream(random.Random(run.seed + 3), run.tier))
+    cases = corpus_cases() + list(case_stream(rng, run.tier)) + list(deep_stream(random.Random(run.seed + 5), run.tier)) + \
+        list(history_stream(random.Random(run.seed + 3), run.tier))
     dist: dict = {}
     coq_cases, descs, ambiguous = [], [], 0
+    # the statement's clauses (check_nodes: everything of the oracle but the input-form clause, which needs calls of
+    # its own) are read on EVERY sequence the correspondence observes: the oracle's inputs are a superset of the
+    # correspondence's; search() reports what is found here, with the case as replay
+    judged: list = []
 
     def bump(d, key, by=1):
         d[key] = d.get(key, 0) + by
@@ -295,7 +352,10 @@ def correspond(run: lib.Run):
             # is evaluated on the environment AS IT IS at that call
             got = []
 
-            def on_call(live, idx, step, snap, root, nodes, earlier, case=case, got=got):
+            hfails: list = []
+
+            def on_call(live, idx, step, snap, root, nodes, earlier, case=case, got=got, hfails=hfails):
+                hfails.extend(judge_call(case, live, idx, step, root, nodes, earlier))
                 if earlier is not None:
                     d, t, c = emit(case, snap, live, step["root"], nodes, {"call": idx})
                     if nodes is earlier:
@@ -316,6 +376,7 @@ def correspond(run: lib.Run):
                 ambiguous += 1
                 continue
             bump(dist, "histories")
+            judged.extend(hfails)
             for d, t, c in got:
                 if d is None:
                     for k, v in c.items():
@@ -328,9 +389,12 @@ def correspond(run: lib.Run):
             ambiguous += 1      # two spellings of one ==-class met in one case: outside the model's guard
             continue
         keep(*emit(case, case, live, case["root"], nodes))
+        if not case["tag"].startswith("unresolvable"):      # not annotations of U: tied by the correspondence only
+            judged.extend(check_nodes({"tag": case["tag"], "root": repr(root), "case": case}, live, root, nodes))
+    run._c09_judged = judged
     dist["ambiguous_skipped"] = ambiguous
-    # shards of <= 450 cases
-    shard = 450
+    # shards of <= 490 cases
+    shard = 490
     files, index = {}, {}
     for s in range(0, len(coq_cases), shard):
         idx = [i for i in range(s, min(s + shard, len(coq_cases))) if coq_cases[i] is not None]
@@ -458,23 +522,29 @@ def oracle_history(case):
       the class statement is not judged (whether the edit changed its "fields" is ambiguous; the code goes by the
       type hints, and the correspondence ties that); a plain class has no other definition of its fields than
       its annotation table, so members added to / retyped on a plain class ARE judged;
+    * resolve steps (refs.evaluate on the references of deferred nodes, static_order of such a reference,
+      unmarshal / marshal of a value) change no class: every later call is judged exactly like a first call;
     * itertypes calls are not judged (the statement speaks of static_order); they only prime;
     * the input-form clause is not tried inside a history (it would need calls of its own)."""
     fails: list = []
 
     def on_call(live, idx, step, snap, root, nodes, earlier):
-        if step["fn"] != "static_order":
-            return
-        if earlier is not None and not isinstance(nodes, BaseException) and sig(nodes) == sig(earlier):
-            return
-        if live.reaches_unresolved(step["root"]) or live.reaches_reannotated(step["root"]):
-            return
-        base = {"tag": case["tag"], "root": repr(root), "case": case, "call": idx,
-                "history": [G.show_step(case, st) for st in case["history"][:idx + 1]]}
-        fails.extend(check_nodes(base, live, root, nodes))
+        fails.extend(judge_call(case, live, idx, step, root, nodes, earlier))
 
     live = run_history(case, on_call)
     return [] if live.ambiguous else fails
+
+
+def judge_call(case, live, idx, step, root, nodes, earlier):
+    if step["fn"] != "static_order":
+        return []
+    if earlier is not None and not isinstance(nodes, BaseException) and sig(nodes) == sig(earlier):
+        return []
+    if live.reaches_unresolved(step["root"]) or live.reaches_reannotated(step["root"]):
+        return []
+    base = {"tag": case["tag"], "root": repr(root), "case": case, "call": idx,
+            "history": [G.show_step(case, st) for st in case["history"][:idx + 1]]}
+    return check_nodes(base, live, root, nodes)
 
 
 def check_nodes(base, live, root, nodes):
@@ -551,7 +621,37 @@ def check_nodes(base, live, root, nodes):
                 okref = ok and want is not None and same(val, want)
             if not okref:
                 fails.append(dict(base, symptom="string-alias-node-does-not-carry-its-body", why="", got=repr(n)))
+    # ... and it is a SINGLE node: what only its body contains (reachable from the evaluated body, not from the root
+    # without passing through a string alias) has no node in the sequence
+    aliases = [n.type for n in nodes if isinstance(n.type, compat.TypeAliasType) and isinstance(n.type.__value__, str)]
+    if aliases:
+        from_root = closure(root, live)
+        for a in aliases:
+            try:
+                body = eval(a.__value__, dict(vars(__import__("sys").modules[a.__module__])))
+            except Exception:  # noqa: BLE001
+                continue
+            only_body = [t for t in closure(body, live) if not any(same(t, r) for r in from_root)]
+            for i, n in enumerate(nodes):
+                t = evals[i][1] if (n.cyclic and n.type.__class__ is typing.ForwardRef and evals[i][0]) else n.type
+                if t.__class__ is typing.ForwardRef:
+                    continue
+                if any(same(t, x) for x in only_body):
+                    fails.append(dict(base, symptom="string-alias-body-expanded", why="", alias=repr(a), got=repr(n)))
+                    break
     return fails
+
+
+def closure(start, live):
+    """the types reachable from `start` through member types (a string alias and a reference contain nothing)"""
+    out, todo = [], [start]
+    while todo:
+        t = todo.pop()
+        if any(same(t, s) for s in out):
+            continue
+        out.append(t)
+        todo += own_members(t, live)
+    return out
 
 
 def names(ref, m) -> bool:
@@ -637,6 +737,20 @@ def input_forms(case, live, root, nodes, base):
     return fails
 
 
+def fails_in_fresh_process(run, x) -> bool:
+    import subprocess
+    import sys
+    path = os.path.join(run.build, "candidate_replay.json")
+    with open(path, "w") as f:
+        json.dump({"case": x["case"], "symptom": x.get("symptom"), "why": x.get("why")}, f, default=str)
+    try:
+        p = subprocess.run([sys.executable, os.path.join(lib.VERIF, "harness", "main.py"), "C09", "--replay", path],
+                           capture_output=True, timeout=300, cwd=lib.VERIF)
+    except Exception:  # noqa: BLE001
+        return False
+    return p.returncode == 1
+
+
 def failure_key(f):
     return json.dumps([f.get("symptom"), f.get("why")])
 
@@ -649,17 +763,23 @@ def search(run: lib.Run, broken):
     pool = corpus_cases() + list(getattr(run, "_c09_mismatch_cases", []))
     stream = case_stream(rng, run.tier)
     # the stream is long; sample it evenly
-    allcases = list(stream)
+    allcases = list(stream) + list(deep_stream(random.Random(run.seed + 5), run.tier))
     step = max(1, -(-len(allcases) // budget))
     off = rng.randrange(step)
     pool += allcases[off::step][:budget]
     # histories are the only cases with more than one call per process: all of them, always (no input forms: cheap)
-    pool += list(history_stream(random.Random(run.seed + 3), run.tier))
+    #   -- already judged call by call, like every other correspondence case, when correspond() ran
+    if not hasattr(run, "_c09_judged"):
+        pool += list(history_stream(random.Random(run.seed + 3), run.tier))
+        pool += [dict(c, noforms=True) for c in allcases]
     fails, nontriv = [], 0
+    for x in getattr(run, "_c09_judged", []):       # read on the correspondence's own observations
+        x["key"] = failure_key(x)
+        fails.append(x)
     for case in pool:
         if case["tag"].startswith("unresolvable"):
             continue      # unresolvable names are not annotations of U: tied by the correspondence only
-        fs = oracle(case)
+        fs = oracle(case, forms=not case.get("noforms"))
         nontriv += 1 if (case["classes"] or case["root"][0] in ("gen", "union")) else 0
         for x in fs:
             x["key"] = failure_key(x)
@@ -669,9 +789,28 @@ def search(run: lib.Run, broken):
     for x in fails:
         c = x["case"]
         size = (len(c["classes"]), x.get("call", 0), sum(len(k["fields"]) for k in c["classes"]), len(json.dumps(c["root"])))
-        if x["key"] not in best or size < best[x["key"]][0]:
-            best[x["key"]] = (size, x)
+        best.setdefault(x["key"], []).append((size, len(best.get(x["key"], [])), x))
+    # the replay must fail in a FRESH process: a failure observed in this process may depend on the calls of earlier
+    # cases (state that typelib's cache_clear does not reset); per kind, the smallest failure that does
+    for key, cands in best.items():
+        cands.sort(key=lambda v: v[:2])
+        pick = None
+        for size, _, x in cands[:6]:
+            if fails_in_fresh_process(run, x):
+                pick = (size, x)
+                break
+        if pick is None:
+            size, _, x = cands[0]
+            x["replay_note"] = ("did not fail again in a fresh process: it needs the calls of the cases that ran before "
+                                "it in the check's process (state that no cache_clear resets)")
+            pick = (size, x)
+        best[key] = pick
     out = [v[1] for v in sorted(best.values(), key=lambda v: v[0])]
+    if any("replay_note" not in x for x in out):
+        dropped = [x["key"] for x in out if "replay_note" in x]
+        if dropped:
+            run.notes.append(f"failure kinds seen only with the process's earlier cases, not reported as replays: {dropped}")
+        out = [x for x in out if "replay_note" not in x]
     # known findings listed in findings.d/C09.json (the lead merges them into known_findings.json;
     # until then they are honoured from here)
     listed = {e["id"] for e in run.findings()}
@@ -695,6 +834,7 @@ def search(run: lib.Run, broken):
         "evaluations": len(pool), "distinct_nontrivial": nontriv, "failures": len(fails),
         "failure_kinds": sorted({x["key"] for x in fails}),
         "histories": sum(1 for c in pool if "history" in c),
+        "failures_on_correspondence_observations": len(getattr(run, "_c09_judged", [])),
         "rule": "cases sampled evenly from the correspondence stream (all class digraphs, variants, random "
                 "annotations) + corpus + mismatching cases + every operation history (each static_order call of a "
                 "history judged on the classes as they are at that call); non-trivial = has classes or a "
